@@ -6,8 +6,9 @@ package peers
 //@ iface Service.Peer(self, id)
 //@ ensures result1 == nil ==> result0 != nil
 //@ iface Service.All(self)
-//@ flag noalloc
-//@ ensures result == peersAll(self)
+// what All returns is a copy of the peer table peersAll(self): same ids, and per id a non-nil entry with the same name
+//@ ensures [copy-dom] result != nil && (forall id uint64 :: (id in result) <==> (id in peersAll(self)))
+//@ ensures [copy-val] forall id uint64 :: id in result ==> result[id] != nil && result[id].Name == peersAll(self)[id].Name && result[id].ID == peersAll(self)[id].ID && result[id].Port == peersAll(self)[id].Port
 //@ iface Service.Suitable(self, threshold)
 //@ ensures result1 == nil ==> len(result0) >= threshold
 
